@@ -190,11 +190,17 @@ func isSwap(st ast.Stmt) bool {
 
 // ---- integer expressions ----
 
+// canonical names for locals whose identity is fixed by how they are defined (result of strconv.Atoi, n-th parameter)
+var rename = map[string]string{}
+
 func exprOf(e ast.Expr) string {
 	switch x := e.(type) {
 	case *ast.ParenExpr:
 		return exprOf(x.X)
 	case *ast.Ident:
+		if c, ok := rename[x.Name]; ok {
+			return "(NhVar " + tx.CoqString(c) + ")"
+		}
 		return "(NhVar " + tx.CoqString(x.Name) + ")"
 	case *ast.BasicLit, *ast.UnaryExpr:
 		if v, ok := intLit(e); ok {
@@ -246,6 +252,17 @@ func bexprOf(e ast.Expr) string {
 	return "(NhBUnknown " + tx.CoqString(src(e)) + ")"
 }
 
+func mentions(e ast.Expr, name string) bool {
+	found := false
+	ast.Inspect(e, func(x ast.Node) bool {
+		if id, ok := x.(*ast.Ident); ok && id.Name == name {
+			found = true
+		}
+		return true
+	})
+	return found
+}
+
 // returnsErrorOnly: the body of the if is a single `return nil, <something that is not nil>`
 func returnsError(b *ast.BlockStmt) bool {
 	if len(b.List) != 1 {
@@ -256,6 +273,26 @@ func returnsError(b *ast.BlockStmt) bool {
 		return false
 	}
 	return src(r.Results[0]) == "nil" && src(r.Results[1]) != "nil"
+}
+
+// atoiVar returns the name of the variable defined as `<name>, err := strconv.Atoi(...)` inside n
+func atoiVar(n ast.Node) string {
+	name := ""
+	ast.Inspect(n, func(x ast.Node) bool {
+		as, ok := x.(*ast.AssignStmt)
+		if !ok || len(as.Lhs) != 2 || len(as.Rhs) != 1 {
+			return true
+		}
+		call, ok := as.Rhs[0].(*ast.CallExpr)
+		if !ok || src(call.Fun) != "strconv.Atoi" {
+			return true
+		}
+		if id, ok := as.Lhs[0].(*ast.Ident); ok && name == "" {
+			name = id.Name
+		}
+		return true
+	})
+	return name
 }
 
 func genNatHole() ([]byte, error) {
@@ -424,6 +461,19 @@ func genNatHole() ([]byte, error) {
 	// getRangePorts
 	rangeGuard, rangeFrom, rangeTo := "NhAbsent", `(NhExprUnknown "absent")`, `(NhExprUnknown "absent")`
 	if fd := funcDecl(fk, "getRangePorts"); fd != nil && fd.Body != nil {
+		rename = map[string]string{}
+		var pn []string
+		for _, p := range fd.Type.Params.List {
+			for _, n := range p.Names {
+				pn = append(pn, n.Name)
+			}
+		}
+		if len(pn) == 3 {
+			rename[pn[1]], rename[pn[2]] = "difference", "maxNumber"
+		}
+		if v := atoiVar(fd.Body); v != "" {
+			rename[v] = "port"
+		}
 		if len(fd.Body.List) > 0 {
 			if is, ok := fd.Body.List[0].(*ast.IfStmt); ok && is.Init == nil && is.Else == nil && len(is.Body.List) == 1 &&
 				src(is.Body.List[0]) == "return nil" {
@@ -464,6 +514,11 @@ func genNatHole() ([]byte, error) {
 	// ClassifyNATFeature: `if <cond on portNum> { return nil, <error> }` directly inside the loop over addresses
 	portReject := "NhAbsent"
 	if fd := funcDecl(fc, "ClassifyNATFeature"); fd != nil && fd.Body != nil {
+		rename = map[string]string{}
+		pv := atoiVar(fd.Body)
+		if pv != "" {
+			rename[pv] = "portNum"
+		}
 		for _, st := range fd.Body.List {
 			rs, ok := st.(*ast.RangeStmt)
 			if !ok {
@@ -474,7 +529,7 @@ func genNatHole() ([]byte, error) {
 				if !ok || is.Init != nil || is.Else != nil {
 					continue
 				}
-				if strings.Contains(src(is.Cond), "portNum") && returnsError(is.Body) {
+				if pv != "" && mentions(is.Cond, pv) && returnsError(is.Body) {
 					if portReject == "NhAbsent" {
 						portReject = bexprOf(is.Cond)
 					} else {
